@@ -73,6 +73,8 @@ def unit_descs(kind, k):
                 ((G, "QueryStatus", (a,)), 0)]
     if kind == "R":
         return [((G, "DTR1", (k,)), 0), (dt_cmd_desc(k), DT[k])]
+    if kind == "Z":         # a frame the gateway cannot carry (24-bit on hasseb), sent with exceptions switched off: refused, nothing on the wire
+        return []
     if kind == "W":         # hand-written transaction holding transaction_lock itself (in_transaction=True calls), incl. power_supply
         return [((G, "DTR0", (k,)), 0), ("power", 1), ((G, "QueryStatus", (a,)), 0), ((G, "DTR1", (k,)), 0)]
     if kind == "M":         # ONE sequence with commands of several different device types
@@ -115,6 +117,12 @@ def make_caller(kind, k, gens):
         largs = [GearShort(x[1]) if isinstance(x, tuple) else x for x in args]
         return cls(*largs)
     descs = [d for d, dt in unit_descs(kind, k)]
+    if kind == "Z":
+        async def co(w):
+            from dali.device.general import QueryDeviceStatus
+            from dali.address import DeviceShort
+            return await w.driver.send(QueryDeviceStatus(DeviceShort(k)), exceptions=False)
+        return Caller(f"{kind}{k}", co)
     if kind == "W":
         async def co(w):
             d = w.driver
@@ -255,7 +263,8 @@ def judge(res, driver, kinds, w, obs):
         if oc[0] in ("pending", "not-started"):
             add_violation(res, f"C15:{tag}:caller-hangs", f"{driver} {kinds}: caller {nm} is {oc[0]} at quiescence (trace tail {w.trace[-6:]})", case)
         elif oc[0] == "raised":
-            ok = (kd == "R" and oc[1] == "RuntimeError") or (driver in ("luba", "sci") and oc[1] == "TimeoutError")
+            ok = (kd == "R" and oc[1] == "RuntimeError") or (driver in ("luba", "sci") and oc[1] == "TimeoutError") or \
+                (kd == "Z" and oc[1] == "UnsupportedFrameTypeError")
             if not ok:
                 add_violation(res, f"C15:{tag}:caller-raised:{oc[1]}", f"{driver} {kinds}: caller {nm} raised {oc[1:]}", case)
         elif oc[0] == "cancelled" and kd not in ("X", "Y"):
@@ -314,6 +323,9 @@ def shards(tier):
         if drv == "tridonic":
             for shard_ in (("eager", drv, ("W", "P", "S"), 1), ("eager", drv, ("W", "Q"), 2), ("run", drv, ("W", "P"), 1 if tier == "quick" else 2),
                            ("run", drv, ("P", "W"), 1), ("eager", drv, ("S", "W", "D"), 1), ("run", drv, ("W",), 2)):
+                out.append(shard_)
+        if drv == "hasseb":
+            for shard_ in (("run", drv, ("Z", "P"), 1), ("eager", drv, ("Z", "S", "Q"), 1), ("eager", drv, ("S", "Z"), 1)):
                 out.append(shard_)
         # one sequence that switches between device types (the prefix must match EACH command)
         out.append(("run", drv, ("M",), 2))
